@@ -26,6 +26,14 @@ def run(ctx):
     for i in range(n_hist):
         workloads.random_history(ctx, srv, workloads.MultiDbGen(ctx.rnd), n=1200 if ctx.quick else 4000,
                                  label='dbs%d' % i, dbs=tuple(range(16)))
+    # blocking pops: waiters on the same key name in several databases, pushes to all of them handled in one pass of the event loop
+    import props.c13 as c13
+    for name, steps in c13.crossdb_schedules():
+        trb = ctx.new_trace('blk-' + name)
+        c13.run_schedule(ctx, srv, name, steps, trb)
+        ctx.validate(trb, label='blk-' + name)
+        if not srv.alive():
+            srv.restart()
     # the forms catalogue in a non-zero database while another database holds the same key names, through every path
     tr = ctx.new_trace('forms')
     s = Session(srv, tr)
